@@ -86,7 +86,10 @@ int __wrap_connect(int fd, const struct sockaddr *addr, socklen_t len) {
 	kx_event(0, "tcp_open fd=%d ep=%d host=%s port=%s nonblock=%d", fd, e, eps[e].host, eps[e].port, c->nonblock);
 	switch (eps[e].connect_mode) {
 		case 0: c->state = CS_ESTABLISHED; return 0;
-		case 1: case 4: c->state = CS_CONNECTING; if (c->nonblock) { errno = EINPROGRESS; return -1; } c->state = CS_ESTABLISHED; return 0;
+		case 1: c->state = CS_CONNECTING; if (c->nonblock) { errno = EINPROGRESS; return -1; } c->state = CS_ESTABLISHED; return 0;
+		case 4: c->state = CS_CONNECTING; if (c->nonblock) { errno = EINPROGRESS; return -1; }
+			/* a blocking connect() to a peer that never answers: the caller sits in the kernel until the SYN retries are used up (about two minutes) */
+			kx_event(0, "tcp_connect_blocked fd=%d host=%s", fd, eps[e].host); vclock += 127; c->state = CS_CLOSED; errno = ETIMEDOUT; return -1;
 		case 2: if (c->nonblock) { c->state = CS_REFUSED; errno = EINPROGRESS; return -1; } c->state = CS_CLOSED; errno = ECONNREFUSED; return -1;
 		default: errno = ENETUNREACH; return -1;
 	}
